@@ -127,6 +127,110 @@ fn expand(source: &str) -> Result<Vec<String>, String> {
     Ok(fields)
 }
 
+fn toks<T: ToTokens>(x: &Option<T>) -> String {
+    x.as_ref()
+        .map(|t| t.to_token_stream().to_string())
+        .unwrap_or_else(|| "-".to_owned())
+}
+
+fn opt_str(x: &Option<String>) -> String {
+    x.clone().unwrap_or_else(|| "\u{1}none".to_owned())
+}
+
+fn optional(o: crate::attr::Optional) -> String {
+    match o {
+        crate::attr::Optional::NotOptional => "-".to_owned(),
+        crate::attr::Optional::Optional { nullable } => format!("optional:{nullable}"),
+    }
+}
+
+/// The attribute record parsed from the attributes of an item (`#[..] struct X;`), per position.
+fn attrs(position: &str, source: &str) -> Result<Vec<String>, String> {
+    use crate::attr::{EnumAttr, FieldAttr, StructAttr, VariantAttr};
+    let item = syn::parse_str::<syn::ItemStruct>(source).map_err(|e| format!("syntax: {e}"))?;
+    let a = &item.attrs;
+    let rule = |r: &Option<Inflection>| r.map(|r| format!("{r:?}")).unwrap_or_else(|| "-".to_owned());
+    let bound = |b: &Option<Vec<syn::WherePredicate>>| {
+        b.as_ref()
+            .map(|b| {
+                b.iter()
+                    .map(|p| p.to_token_stream().to_string())
+                    .collect::<Vec<_>>()
+                    .join(" , ")
+            })
+            .unwrap_or_else(|| "-".to_owned())
+    };
+    let concrete = |c: &std::collections::HashMap<syn::Ident, syn::Type>| {
+        let mut v: Vec<String> = c
+            .iter()
+            .map(|(k, v)| format!("{k} = {}", v.to_token_stream()))
+            .collect();
+        v.sort();
+        v.join(" ; ")
+    };
+    Ok(match position {
+        "struct" => {
+            let r = StructAttr::from_attrs(a).map_err(|e| e.to_string())?;
+            vec![
+                format!("as={}", toks(&r.type_as)),
+                format!("type={}", opt_str(&r.type_override)),
+                format!("rename_all={}", rule(&r.rename_all)),
+                format!("rename={}", toks(&r.rename)),
+                format!("export_to={}", toks(&r.export_to)),
+                format!("export={}", r.export),
+                format!("tag={}", opt_str(&r.tag)),
+                format!("concrete={}", concrete(&r.concrete)),
+                format!("bound={}", bound(&r.bound)),
+                format!("optional_fields={}", optional(r.optional_fields)),
+            ]
+        }
+        "enum" => {
+            let r = EnumAttr::from_attrs(a).map_err(|e| e.to_string())?;
+            vec![
+                format!("as={}", toks(&r.type_as)),
+                format!("type={}", opt_str(&r.type_override)),
+                format!("rename_all={}", rule(&r.rename_all)),
+                format!("rename_all_fields={}", rule(&r.rename_all_fields)),
+                format!("rename={}", toks(&r.rename)),
+                format!("export_to={}", toks(&r.export_to)),
+                format!("export={}", r.export),
+                format!("tag={}", opt_str(&r.tag)),
+                format!("untagged={}", r.untagged),
+                format!("content={}", opt_str(&r.content)),
+                format!("concrete={}", concrete(&r.concrete)),
+                format!("bound={}", bound(&r.bound)),
+            ]
+        }
+        "variant" => {
+            let r = VariantAttr::from_attrs(a).map_err(|e| e.to_string())?;
+            vec![
+                format!("as={}", toks(&r.type_as)),
+                format!("type={}", opt_str(&r.type_override)),
+                format!("rename={}", toks(&r.rename)),
+                format!("rename_all={}", rule(&r.rename_all)),
+                format!("inline={}", r.inline),
+                format!("skip={}", r.skip),
+                format!("untagged={}", r.untagged),
+            ]
+        }
+        "field" => {
+            let r = FieldAttr::from_attrs(a).map_err(|e| e.to_string())?;
+            let probe: syn::Type = syn::parse_quote!(__Original);
+            vec![
+                format!("as={}", r.type_as(&probe).to_token_stream()),
+                format!("type={}", opt_str(&r.type_override)),
+                format!("rename={}", opt_str(&r.rename)),
+                format!("inline={}", r.inline),
+                format!("skip={}", r.skip),
+                format!("optional={}", optional(r.optional)),
+                format!("flatten={}", r.flatten),
+                format!("with={}", r.using_serde_with),
+            ]
+        }
+        _ => return Err("unknown position".to_owned()),
+    })
+}
+
 fn docs(lines: &[String]) -> Result<Vec<String>, String> {
     let attrs: Vec<syn::Attribute> = lines
         .iter()
@@ -173,6 +277,7 @@ fn run(fields: &[String]) -> Result<Vec<String>, String> {
         Some("tsfield") => Ok(vec![utils::raw_name_to_ts_field(arg(1)?)]),
         Some("docs") => docs(&fields[1..]),
         Some("expand") => expand(&arg(1)?),
+        Some("attrs") => attrs(&arg(1)?, &arg(2)?),
         _ => Err("unknown command".to_owned()),
     }
 }
